@@ -211,6 +211,10 @@ async def via_evaluation(ctx, s, t, off):
 
 # ---------------------------------------------------------------------------------------------------------------
 FIXED_HOSTILE = [
+    # what datetime.fromisoformat reads leniently although it is no UTC offset / no instant
+    "2022-01-01T00:00:00+00:60", "20220101T060000+0060", "2022-01-01T01:39:00+01:99", "2022-01-01T00:59:39+00:59:99", "2021-12-31T23:00:00+00:00:00.5",
+    "2021-12-31T23:00:00-00:00:00.999999", "2021-12-31T23:00:00+00:00:00.000001", "2022-W01T00:00:00+01:00", "2022W01T000000+0100", "2021-W52T23:00:00Z",
+    "2022-01-01T00:000+01:00", "2022-01-01T00:00:00x+01:00", "2022-01-01T00:00:00+01:00\x00", "20220701T04000Z", "2022-01-01\n00:00:00+01:00", "2022-01-01T05:00:010+00:00",
     "", " ", "Z", "+00:00", "T", "0001-01-01T00:00:00+01:00", "0001-01-01T00:00:00+00:00", "0001-01-01T00:00:00-01:00", "0001-01-01T00:59:59+01:00",
     "9999-12-31T23:59:59-01:00", "9999-12-31T23:59:59+00:00", "9999-12-31T23:59:59Z", "9999-12-31T23:00:00-00:30", "9999-12-31T22:00:00Z", "9999-12-31T23:59:59+01:00",
     "0001-01-01T00:00:00+23:59", "9999-12-31T23:59:59-23:59", "0001-01-01T01:00:00+02:00", "0001-01-01", "2022-01-01", "2022-01-01T00:00:00", "2022-01-01 00:00:00",
@@ -257,7 +261,7 @@ def hostile(rng):
     return "".join(rng.choice("0123456789-:+TZ .abcXYZ\t\nä−") for _ in range(rng.randint(0, 30)))
 
 
-_ISO_DATE = re.compile(r"(?:(\d{4})-(\d{2})-(\d{2})|(\d{4})(\d{2})(\d{2})|\d{4}-?W\d{2}(?:-?[1-7])?)\Z", re.ASCII)
+_ISO_DATE = re.compile(r"(?:(\d{4})-(\d{2})-(\d{2})|(\d{4})(\d{2})(\d{2})|\d{4}-?W\d{2}-?[1-7])\Z", re.ASCII)  # (a week without a day names no instant)
 _ISO_TIME = re.compile(r"(\d{2})(?:(?::(\d{2})(?::(\d{2}))?)|(?:(\d{2})(\d{2})?))?([.,]\d+)?\Z", re.ASCII)
 _ISO_OFFSET = re.compile(r"(?:([Zz])|([+-])(\d{2})(?:(?::(\d{2})(?::(\d{2}))?)|(?:(\d{2})(\d{2})?))?(\.\d+)?)\Z", re.ASCII)
 
@@ -297,7 +301,9 @@ def justify(s):
         return None
     if d > [31, 29 if (y % 4 == 0 and (y % 100 != 0 or y % 400 == 0)) else 28, 31, 30, 31, 30, 31, 31, 30, 31, 30, 31][m - 1] or y < 1:
         return None
-    if mt.group(6) or (mo.group(8) if not mo.group(1) else None):
+    if not mo.group(1) and mo.group(8):
+        return None  # a UTC offset has no fraction of a second
+    if mt.group(6):
         return "unspecified"
     if mo.group(1):
         off = 0
